@@ -998,6 +998,12 @@ class InterpBuiltins:
             raise Unsupported(f'at(): first argument must be old or loop_old (line {line})')
         return self.pin(v, ns.heap)
 
+    def bi_now(self, args, kw, line):
+        """now(v): the value v (object, collection, record) viewed in the CURRENT heap - for an element taken from a
+        collection pinned to an earlier heap (the `seq` ghost of a loop over list(...), members of old.x), whose fields
+        would otherwise be read in that earlier heap"""
+        return self.pin(args[0], None)
+
     def bi_assume(self, args, kw, line):
         """assume(e): only inside a @lemma body - restricts the universally quantified parameters of the lemma"""
         if not getattr(self, 'in_lemma', False):
